@@ -119,7 +119,7 @@ def layout_cases(rng, quick):
             cases.append(c)
     # ---- 1-D elements: every size vector x every append order x gap patterns
     vectors = [v for n in (1, 2, 3) for v in itertools.product([0, 1, 2], repeat=n)]
-    vectors += [(1, 2, 1, 2), (2, 2, 2, 2), (0, 1, 0, 3)] if quick else list(itertools.product([0, 1, 2], repeat=4))
+    vectors += [(1, 2, 1, 2), (2, 2, 2, 2), (0, 1, 0, 3)] if quick else list(itertools.product([1, 2], repeat=4)) + [(0, 1, 0, 3), (2, 0, 0, 1), (0, 0, 2, 0)]
     for vi, sizes in enumerate(vectors):
         n = len(sizes)
         dt = DTYPES[vi % 5]        # pairwise different values: not bool
